@@ -9,7 +9,7 @@ from .mir import op_place, op_const
 
 
 class Cond:
-    def __init__(self, fn, sw_bb, target, kind, outcome, value, subject=None):
+    def __init__(self, fn, sw_bb, target, kind, outcome, value, subject=None, enum=None):
         self.fn = fn
         self.sw_bb = sw_bb
         self.target = target
@@ -17,6 +17,7 @@ class Cond:
         self.outcome = outcome
         self.value = value
         self.subject = subject   # for 'variant': value whose discriminant is tested
+        self.enum = enum
 
     def __repr__(self):
         from .value import vstr
@@ -54,7 +55,7 @@ def _discr_info(fn, sw_bb, operand):
         return None
     for d in fn.whole_defs(pl[0]):
         if d[0] == 'stmt' and d[3]['r'] == 'discr' and 'variants' in d[3]:
-            return d[3]['p'], {v: n for v, n in d[3]['variants']}
+            return d[3]['p'], {v: n for v, n in d[3]['variants']}, d[3].get('enum')
     return None
 
 
@@ -78,14 +79,14 @@ def conditions(fn, bb, slicer, unwind=False):
             di = _discr_info(fn, sb, t['o'])
             val = slicer.operand(fn, t['o'])
             if di:
-                place, vmap = di
+                place, vmap, enum = di
                 names = set()
                 for lab in labels:
                     if lab == 'else':
                         names |= {n for v, n in vmap.items() if v not in listed}
                     else:
                         names.add(vmap.get(lab, str(lab)))
-                out.append(Cond(fn, sb, tb, 'variant', frozenset(names), val, slicer.place(fn, place)))
+                out.append(Cond(fn, sb, tb, 'variant', frozenset(names), val, slicer.place(fn, place), enum))
             elif t.get('oty') == 'bool':
                 if labels == ['else'] and listed == [0]:
                     outcome = True
